@@ -270,6 +270,15 @@ func (r *VerifRecorder) BlockNext() (entered, release chan struct{}) {
 	return r.entered, r.release
 }
 
+// Disarm cancels BlockNext; false: a callback has already taken the pause (it will report on entered).
+func (r *VerifRecorder) Disarm() bool {
+	r.mu.Lock()
+	defer r.mu.Unlock()
+	armed := r.entered != nil
+	r.entered, r.release = nil, nil
+	return armed
+}
+
 func (r *VerifRecorder) pause() {
 	r.mu.Lock()
 	en, rel := r.entered, r.release
@@ -434,7 +443,16 @@ func (s *VerifSession) Exec(op []string) bool {
 		s.Etcd.SetSnapshot(s.Prefix, VerifParseKVs(s.Key, op[i+1:]))
 		entered, release := s.Rec.BlockNext()
 		go s.Etcd.Push(s.Prefix, clientv3.WatchResponse{Events: evs})
-		<-entered
+		select {
+		case <-entered:
+		case <-time.After(500 * time.Millisecond):
+			// no listener callback for the first event (only a changed tree does that): reload without a pause
+			if s.Rec.Disarm() {
+				release = nil
+			} else {
+				<-entered
+			}
+		}
 		if !s.reload(release) {
 			return true
 		}
@@ -462,13 +480,23 @@ func (s *VerifSession) Exec(op []string) bool {
 			evs = append(evs, verifEvent(s.Key, t))
 		}
 		entered, release := s.Rec.BlockNext()
-		pushed := make(chan struct{})
+		handled := make(chan struct{})
 		go func() {
 			s.Etcd.Push(s.Prefix, clientv3.WatchResponse{Events: evs})
-			close(pushed)
+			s.Etcd.Sync(s.Prefix)
+			close(handled)
 		}()
-		<-pushed
-		<-entered
+		mid := false
+		select {
+		case <-entered:
+			mid = true
+		case <-handled:
+			// the response was handled without any listener callback (nothing to join in the middle of)
+			if !s.Rec.Disarm() {
+				<-entered
+				mid = true
+			}
+		}
 		joined := make(chan *Subscriber)
 		go func() {
 			late, err := NewSubscriber(s.Endpoints, s.Key)
@@ -477,15 +505,17 @@ func (s *VerifSession) Exec(op []string) bool {
 			}
 			joined <- late
 		}()
-		select {
-		case s.Late = <-joined:
-		case <-time.After(15 * time.Millisecond):
+		if mid {
+			select {
+			case s.Late = <-joined:
+			case <-time.After(15 * time.Millisecond):
+			}
+			close(release)
 		}
-		close(release)
 		if s.Late == nil {
 			s.Late = <-joined
 		}
-		s.Etcd.Sync(s.Prefix)
+		<-handled
 	case "cancel":
 		// watch cancelled for another reason: re-watch without reload
 		s.Etcd.Push(s.Prefix, clientv3.WatchResponse{Canceled: true})
